@@ -205,6 +205,86 @@ theorem collect_set_mem (t : Ty) (hk : t.ordKey = true) (es : List Val) (hes : h
         have : y = e := by simpa [keyOf] using he
         exact this ▸ hy
 
+/-! ### Any comparison of entries (keys whose `Ord` is coarser than their encoding)
+
+`collect` is the instance of `collectCmp` for the structural order on keys. The two facts below need no assumption on
+the comparison at all: the result never contains an entry that was not listed (in particular no mixture of one
+entry's key with another entry's value), and the last listed entry is always present as it was listed. -/
+
+theorem insertBy_eq_insertByCmp (c : CKind) (x : Val) (l : List Val) :
+    insertBy c x l = insertByCmp (fun a b => Val.cmp (keyOf c a) (keyOf c b)) x l := by
+  induction l with
+  | nil => rfl
+  | cons y ys ih => simp only [insertBy, insertByCmp]; split <;> simp_all
+
+theorem collect_eq_collectCmp (c : CKind) (hc : c ≠ .vec) (vs : List Val) :
+    collect c vs = collectCmp (fun a b => Val.cmp (keyOf c a) (keyOf c b)) vs := by
+  have h : ∀ (acc : List Val), vs.foldl (fun acc x => insertBy c x acc) acc
+      = vs.foldl (fun acc x => insertByCmp (fun a b => Val.cmp (keyOf c a) (keyOf c b)) x acc) acc := by
+    induction vs with
+    | nil => intro acc; rfl
+    | cons v vs ih => intro acc; simp only [List.foldl_cons, insertBy_eq_insertByCmp, ih]
+  cases c with
+  | vec => exact absurd rfl hc
+  | set => simpa [collect, collectCmp] using h []
+  | map => simpa [collect, collectCmp] using h []
+
+theorem mem_insertByCmp (cmp : Val → Val → Ordering) (x e : Val) (l : List Val)
+    (h : e ∈ insertByCmp cmp x l) : e = x ∨ e ∈ l := by
+  induction l with
+  | nil => simp [insertByCmp] at h; exact Or.inl h
+  | cons y ys ih =>
+    simp only [insertByCmp] at h
+    split at h
+    · simp only [List.mem_cons] at h ⊢; rcases h with h | h | h <;> simp [h]
+    · simp only [List.mem_cons] at h ⊢; rcases h with h | h <;> simp [h]
+    · simp only [List.mem_cons] at h ⊢
+      rcases h with h | h
+      · simp [h]
+      · rcases ih h with h | h <;> simp [h]
+
+theorem self_mem_insertByCmp (cmp : Val → Val → Ordering) (x : Val) (l : List Val) :
+    x ∈ insertByCmp cmp x l := by
+  induction l with
+  | nil => simp [insertByCmp]
+  | cons y ys ih => simp only [insertByCmp]; split <;> simp [ih]
+
+private theorem foldl_subset (cmp : Val → Val → Ordering) (vs acc : List Val) (e : Val)
+    (h : e ∈ vs.foldl (fun acc x => insertByCmp cmp x acc) acc) : e ∈ acc ∨ e ∈ vs := by
+  induction vs generalizing acc with
+  | nil => exact Or.inl h
+  | cons v vs ih =>
+    rcases ih _ h with h | h
+    · rcases mem_insertByCmp cmp v e acc h with h | h
+      · exact Or.inr (by simp [h])
+      · exact Or.inl h
+    · exact Or.inr (List.mem_cons_of_mem _ h)
+
+/-- no entry is invented: whatever the comparison, every collected entry is one of the listed entries -/
+theorem collectCmp_subset (cmp : Val → Val → Ordering) (vs : List Val) (e : Val)
+    (h : e ∈ collectCmp cmp vs) : e ∈ vs := by
+  rcases foldl_subset cmp vs [] e h with h | h
+  · simp at h
+  · exact h
+
+/-- the last listed entry is present exactly as listed, whatever came before it -/
+theorem collectCmp_last_mem (cmp : Val → Val → Ordering) (vs : List Val) (x : Val) :
+    x ∈ collectCmp cmp (vs ++ [x]) := by
+  simp only [collectCmp, List.foldl_append, List.foldl_cons, List.foldl_nil]
+  exact self_mem_insertByCmp cmp x _
+
+/-- two entries that compare equal: the later one replaces the earlier one as a whole -/
+theorem collectCmp_pair_eq (cmp : Val → Val → Ordering) (a b : Val) (h : cmp b a = .eq) :
+    collectCmp cmp [a, b] = [b] := by
+  simp [collectCmp, insertByCmp, h]
+
+example : collectCmp (fun a b => match a, b with
+    | .tuple [.uint i, _], .tuple [.uint j, _] => compare i j
+    | _, _ => .eq) [.tuple [.uint 1, .bytes [1]], .tuple [.uint 0, .bytes []], .tuple [.uint 1, .bytes [2, 2]]]
+    = [.tuple [.uint 0, .bytes []], .tuple [.uint 1, .bytes [2, 2]]] := by
+  simp [collectCmp, insertByCmp, compare, compareOfLessAndEq]
+
+
 theorem collect_idempotent (c : CKind) (t : Ty) (vs : List Val) (hk : keyTyOk c t = true)
     (ht : hasTypeAll t vs = true) : collect c (collect c vs) = collect c vs :=
   collect_idem c t vs hk ht
